@@ -620,7 +620,13 @@ class Session:
         raise KeyError(name)
 
     def _sort_key_model(self, name):
-        if name is None or name == "str":
+        if name is None:
+            # the documented default key is the node's *name*: format(data) for the stock node classes, the data in
+            # guillemets for the extension classes - not the same order (`«2305»` sorts before `«2»`, `2` before `2305`)
+            if self.ext:
+                return lambda mn: "\u00ab" + str(mn.data) + "\u00bb"
+            return lambda mn: f"{mn.data}"
+        if name == "str":
             return lambda mn: str(mn.data)
         if name == "len":
             return lambda mn: len(mn.children)
